@@ -385,11 +385,13 @@ pub trait LeastSquaresProblem: Sized {
   spec fn lsp_inv(&self) -> bool;
   /// what no method may change
   spec fn lsp_frame(&self, other: &Self) -> bool;
+  /// what an update with `params` promises beyond the invariant (defined by the implementation)
+  spec fn lsp_post(&self, new: &Self, params: MatR) -> bool;
   proof fn lsp_frame_refl(&self) ensures self.lsp_frame(self);
   proof fn lsp_frame_trans(&self, b: &Self, c: &Self) requires self.lsp_frame(b), b.lsp_frame(c) ensures self.lsp_frame(c);
   fn set_params(&mut self, params: &DMatrix)
     requires old(self).lsp_inv(), params.ok(), params@.c == 1,
-    ensures final(self).lsp_inv(), old(self).lsp_frame(final(self));
+    ensures final(self).lsp_inv(), old(self).lsp_frame(final(self)), old(self).lsp_post(final(self), params@);
   fn params(&self) -> (r: DMatrix) requires self.lsp_inv();
   fn residuals(&self) -> (r: Option<DMatrix>) requires self.lsp_inv();
   fn jacobian(&self) -> (r: Option<DMatrix>) requires self.lsp_inv();
